@@ -12,7 +12,7 @@ import json
 
 from ..common import MachineryError, Verdict, require, scratch
 from ..corpus import library
-from ..proto import default_corpus, prepare_world, run_drivers_parallel
+from ..proto import default_corpus, full_corpus, prepare_world, run_drivers_parallel
 from .. import common
 from ._proto_common import short
 from .c02 import collect
@@ -23,9 +23,9 @@ STRAY_KEY = "shape=switch-without-default,unmatched-value,case-data-present"
 
 def run(tier, corrupt=False):
     v = Verdict(PROP, tier)
-    progs = default_corpus()
     types = library()
     with scratch("c16-") as tmp:
+        progs = full_corpus(tmp, tier)
         recs, stats = collect(tier, tmp, progs, types, "invalid", rich=False, invariants=("PRefused",), tag="inv")
         recs = [r for r in recs if r["kind"] == "inv"]
         require(len(recs) > 300, f"too few violated objects from TLC ({len(recs)})")
